@@ -56,7 +56,7 @@ def run(ctx):
     ncorpus = len(sx)
     hist = {}
     for _ in range(nprog):
-        g = progs.Gen(rng.fork(), feat=dict(evals=True, optbias=rng.chance(1, 3)))
+        g = progs.Gen(rng.fork(), feat=dict(evals=True, optbias=rng.chance(1, 3), refassign=True))
         sx.append(g.program(rng.range(2, 5)))
         for k, v in g.hist.items():
             hist[k] = hist.get(k, 0) + v
